@@ -177,6 +177,15 @@ def run(ctx):
                     continue
                 w = WM.WcMatch(T.root, fp, ep, flags=f)
                 got = w.match()
+                # the root written with a trailing separator (or two) names the same directory: same files, same count
+                for root2 in (T.root + '/', T.root + '//'):
+                    w2 = WM.WcMatch(root2, fp, ep, flags=f)
+                    got2 = sorted(os.path.normpath(x) for x in w2.match())
+                    if got2 != sorted(os.path.normpath(x) for x in got) or w2.get_skipped() != w.get_skipped():
+                        ctx.counterexample('WcMatch(<root>%s, %r, %r, flags=%#x) returns %r (skipped %d); with the root written without the separator %r (skipped %d)' % (
+                            root2[len(T.root):], fp, ep, f, sorted(os.path.relpath(x, T.root) for x in got2)[:6], w2.get_skipped(), sorted(os.path.relpath(x, T.root) for x in got)[:6], w.get_skipped()),
+                            {'file_pattern': fp, 'exclude_pattern': ep, 'flags': f, 'tree': spec, 'root_suffix': root2[len(T.root):]})
+                        break
                 evals += 1
                 if 0 < len(got) < visited:
                     nontriv.add((fp, ep, f, t))
